@@ -27,3 +27,5 @@ pub use countgrams::{
 pub use error::{PreprocessingError, Result};
 #[cfg(linfa_verif)]
 pub use countgrams::verif_hooks_c17;
+#[cfg(linfa_verif)]
+pub mod verif_hooks_c04;
